@@ -76,6 +76,9 @@ def faults_for(cn):
         if req:
             out.append(['req-missing', member])
             out.append(['req-empty', member])
+            if cls.c_namespace and not xn.startswith('{'):
+                # the declared (unqualified) attribute is absent; an attribute of the same local name qualified with the element's own namespace is there instead
+                out.append(['req-qualified-lookalike', member, xn])
         tn = G.type_name(typ)
         if isinstance(tn, tuple) and tn[0] == 'enum':
             out.append(['attr-type', member, 'not-in-enumeration-xyz'])
@@ -108,6 +111,9 @@ def apply_fault(spec, fault):
         spec['attrs'].pop(fault[1], None)
     elif kind == 'req-empty':
         spec['attrs'][fault[1]] = ''
+    elif kind == 'req-qualified-lookalike':
+        v = spec['attrs'].pop(fault[1], None) or 'value'
+        spec.setdefault('ext_attrs', {})['{%s}%s' % (cls.c_namespace, fault[2])] = v
     elif kind == 'attr-type':
         spec['attrs'][fault[1]] = fault[2]
     elif kind == 'text-type':
